@@ -190,7 +190,11 @@ fn gen_name(rng: &mut Rng, valid: &[String], case_insensitive: bool, sink: &mut 
             let n = rng.pick(valid).clone();
             if rng.chance(1, 2) { n.to_ascii_lowercase() } else { mixed_case(rng, &n) }
         }
-        _ => rng.pick(valid).clone(),
+        _ => {
+            let n = rng.pick(valid).clone();
+            sink.count(&format!("c27:{fam}:variant:{n}"));
+            n
+        }
     }
 }
 
